@@ -15,6 +15,7 @@ Explains(e) ==
                            /\ (IF IsNone(e.ns) THEN TsNanosOpt(e.dt) = NoDT ELSE J(e.ns) = TsNanosOpt(e.dt))
      \/ e.op = "dt.subsec" /\ e.ns = e.dt.frac /\ e.us = e.dt.frac \div 1000 /\ e.ms = e.dt.frac \div 1000000
      \/ e.op = "sys.rt"    /\ OptDT(e.dt) = FromSecsNanos(J(e.s), J(e.nn)) /\ e.back = TRUE          \* SystemTime -> DateTime -> SystemTime
+     \/ e.op = "dt.sys"    /\ J(e.r) = Ns(e.dt)                                                       \* DateTime -> SystemTime keeps the instant
      \/ e.op = "dt.add"    /\ OptDT(e.r) = AddDt(e.dt, J(e.d))
      \/ e.op = "dt.sub"    /\ OptDT(e.r) = SubDt(e.dt, J(e.d))
      \/ e.op = "dt.since"  /\ J(e.r) = SinceDt(e.a, e.b) /\ e.c = CmpDt(e.a, e.b)
